@@ -222,16 +222,16 @@ def L_CELLS():
     return [sel("flatseq"), sel("flat_struct"), sel("intoiter")] + L_ROWCUR()
 
 
-prop("C01", [sel("rawbounds"), sel("encaps"), sel("witness", fn=r"^(W1|W2|W3|W4|W6|W7|W9|<rule>|<witness>)"), sel("zero", fn=r"^(TooDee|DrainCol|DropGuard| as Drop)"), sel("zero", fn=r"^TooDee"), sel("shape"), sel("deleg", fn=r"TooDee::(push|pop)"), sel("cursor", fn=r"^Col( |:|$)|<rule>"), sel("sortshape"), sel("sortkey"), sel("deleg"), sel("copyshape"), sel("flipshape"), sel("fillshape"), sel("lockstep"), sel("noshift"), sel("guard", fn=r"^(TooDee( as |::)|TooDeeOpsMut::|CopyOps::|SortOps::|TranslateOps::)"), sel_dyn(A_OWNED, exclude=NOT_VIEW), sel("nonzero", fn=r"is_empty")],
+prop("C01", [sel("rawbounds"), sel("encaps"), sel("witness", fn=r"^(W1|W2|W3|W4|W6|W7|W9|<rule>|<witness>)"), sel("zero", fn=r"^(TooDee|DrainCol|DropGuard| as Drop)"), sel("zero", fn=r"^TooDee"), sel("shape"), sel("deleg", fn=r"TooDee::(push|pop)"), sel("cursor", fn=r"^Col( |:|$)|<rule>"), sel("sortshape"), sel("sortkey"), sel("deleg"), sel("copyshape"), sel("flipshape"), sel("fillshape", fn=r"^(TooDee as |TooDeeOpsMut::)"), sel("lockstep"), sel("noshift"), sel("guard", fn=r"^(TooDee( as |::)|TooDeeOpsMut::|CopyOps::|SortOps::|TranslateOps::)"), sel_dyn(A_OWNED, exclude=NOT_VIEW), sel("nonzero", fn=r"is_empty")],
      "Shape invariant of the owned array, structural clauses: (R-ENCAPS) the three fields are private to module toodee, no exported signature / impl hands out `&mut Vec`, so only the enumerated shape writers can change (len, num_rows, num_cols) - backed by compile_fail witnesses with compiling twins (assigning a field, building the struct or a cursor from parts, AsMut<Vec>, observing the array while a drain / mutable cursor is alive must not type-check); (R-ZERO) num_rows==0 <=> num_cols==0 in every abstract state at every TooDee construction site and at every return of a dimension writer; (R-UNWIND/R-LEAK/R-LEAK-DRAIN/R-HIDE) at every point where control can leave a writer (panic in caller code or a rejected call, leak of the returned drain, return) the triple is untouched, all-zero or in product form; (R-DELEG) push/pop delegate to insert/remove with the dimension as index; (R-RAWBOUNDS, a necessary condition of the cells clause) the raw block moves of insert/remove stay inside the buffer and consecutive moves that shift cells the same way proceed in the only order that does not read already-overwritten cells (back to front when shifting right, front to back when shifting left); (R-CURSOR, Col) the column drain steps and counts through an embedded Col cursor, whose conformance to the ideal strided cursor is what its destructor's compaction relies on.",
      declined=["that the length written by insert_row/insert_col/remove_row on the success path equals the new product (loop/pointer arithmetic, DESIGN 2.4)", "cells equal those of a rows-of-cells model (runtime values) beyond the move-order clause"])
 prop("C02", [sel("layout", fn=r"(Index|IndexMut|::col$|::col_mut$|get_unchecked|::view|::view_mut|from_toodee|TooDeeView(Mut)?::new|<rule>)"), sel("shape", rules=["R-UNWIND", "R-LEAK", "R-LEAK-DRAIN", "R-STALE"]), sel("zero", fn=r"^(TooDee|DrainCol|DropGuard)"), sel("guard", fn=r"(Index|IndexMut|::col$|::col_mut$| as TooDeeOps(Mut)?::col|get_col_params)"), sel("guard", rules=["R-ARITH"], fn=COLCUR), sel("units", fn=r"(Index|::col|get_unchecked|get_col_params|Col as|ColMut as)"), sel("units", fn=VIEWS), sel("cursor", fn=r"^(Col|ColMut) as Index")],
      "Checked access, structural clauses: (R-GUARD) every caller index of Index/IndexMut (row and coordinate forms) and col()/col_mut() on the three receivers is compared strictly with the dimension of its own unit by a guard whose failing edge panics and whose surviving edge dominates every arithmetic use and unchecked access; (R-ARITH) Col/ColMut indexing forms idx*(1+skip) only with checked arithmetic and reaches the cell through a checked slice index (no wrap for huge indices with overflow checks off); (R-UNITS) rows are never compared/multiplied as columns. (R-LAYOUT) every unchecked access of the accessors (Index/IndexMut, col/col_mut, the four get_unchecked*) on the three receivers has, as a canonical polynomial after composing nested slices, the address row*S+col (or the row / column range forms) with S the object's own stride, and the matching lemma's hypotheses (row < R, col < C) are path facts - hence all accessors denote one and the same cell; the view constructors hand every view the slice, dimensions and stride these formulas assume (R-LAYOUT literals), and - because every accessor is an unchecked access justified by the shape invariant - the invariant's own exit-point rules (R-UNWIND, R-LEAK, R-LEAK-DRAIN, R-STALE, R-ZERO of C01) are part of this check as its premise.",
      declined=["the pen-and-paper lemmas L-POS/L-ROW/L-COL* themselves (trusted base)"])
-prop("C03", [sel("guard", fn=r"(::view$|::view_mut$|from_toodee|calculate_view_dimensions)"), sel("layout", fn=r"(::view|::view_mut|from_toodee|TooDeeView(Mut)?::new|^TooDeeView(Mut)? as |<rule>)"), sel("zero", fn=VIEWS), sel("units", fn=VIEWS), sel("encaps", fn=r"^TooDeeView")],
+prop("C03", [sel("guard", rules=["R-ARITH"], fn=r"^TooDeeView(Mut)? as (Index|IndexMut)"), sel("guard", fn=r"(::view$|::view_mut$|from_toodee|calculate_view_dimensions)"), sel("layout", fn=r"(::view|::view_mut|from_toodee|TooDeeView(Mut)?::new|^TooDeeView(Mut)? as |<rule>)"), sel("zero", fn=VIEWS), sel("units", fn=VIEWS), sel("encaps", fn=r"^TooDeeView")],
      "Views, structural clauses: (R-ZERO) every TooDeeView/TooDeeViewMut construction site receives dimensions that are both zero or both non-zero - through the computed (not assumed) summary of the shared window validator, or through the zero-rule guard of the slice constructors; (R-UNITS) start/end/stride are used with the right axis; fields of the view types are module-private. (R-LAYOUT) the six view constructors, evaluated path-wise with the shared window validator inlined, hand get_unchecked a range that matches L-WINDOW (start*stride+start.0 .. + (rows-1)*stride+cols, with sr<er<=R, sc<ec<=C among the path facts) for non-empty windows and the constant empty range L-EMPTY for empty ones, slice the receiver's own backing slice, and store the receiver's own stride; TooDeeView::new / TooDeeViewMut::new slice the prefix num_cols*num_rows under the fact size <= len (L-PREFIX); the views' own accessors (Index/IndexMut, get_unchecked*, rows/rows_mut, col/col_mut, swap_rows), through which 'cell (c,r) of the window' is read and written, address row*stride+col of that slice.",
      declined=["cell-by-cell equality of view and parent (runtime values)"])
-prop("C04", [sel("encaps", fn=r"^(TooDeeViewMut|RowsMut|ColMut|<impls>)"), sel("witness", fn=r"^(W5|W8|W10|<witness>)", keep_rule_floor=False), sel("units", fn=r"TooDeeViewMut"), sel("dup"), sel("take", fn=r"^(RowsMut|ColMut)"), sel("cursor", fn=r"^(RowsMut|ColMut)( |:|$)|<rule>"), sel("layout", fn=r"^TooDeeViewMut|<rule>"), sel("nth"), sel("units", fn=SWAPS), sel("ovf", fn=r"^(RowsMut|ColMut) as "), sel_dyn(A_VIEWMUT)],
+prop("C04", [sel("fillshape", fn=r"^TooDeeViewMut"), sel("encaps", fn=r"^(TooDeeViewMut|RowsMut|ColMut|<impls>)"), sel("witness", fn=r"^(W5|W8|W10|<witness>)", keep_rule_floor=False), sel("units", fn=r"TooDeeViewMut"), sel("dup"), sel("take", fn=r"^(RowsMut|ColMut)"), sel("cursor", fn=r"^(RowsMut|ColMut)( |:|$)|<rule>"), sel("layout", fn=r"^TooDeeViewMut|<rule>"), sel("nth"), sel("units", fn=SWAPS), sel("ovf", fn=r"^(RowsMut|ColMut) as "), sel_dyn(A_VIEWMUT)],
      "Confinement to a mutable view, structural clauses: the view's fields are module-private and RowsMut/ColMut fields crate-private, TooDeeViewMut/RowsMut/ColMut are not Clone (no second writer), the generic algorithm layers (ops/sort/translate/copy) are written against the trait only and use only permutation primitives (R-DUP); the mutable cursors never read a taken slice (R-TAKE). (R-LAYOUT) every writer of module view (index_mut x2, get_unchecked*_mut, col_mut, rows_mut, swap_rows, view_mut, from_toodee, new) matches a confined schema with S = the view's stride: L-POS / L-ROW / L-COLV / L-SWAPROWS / L-WINDOW and the literals RowsMut { cols: C, skip_cols: stride - C }, ColMut { skip: stride - 1 }; (R-CURSOR) RowsMut / ColMut then hand out only [k*(C+K), +C) / single cells; (R-NTH, R-UNITS) the provided swap / swap_rows / row_pair_mut a mutable view inherits address exactly the named cells.",
      declined=["effect inside the rectangle equals the effect on an owned copy (runtime values)"])
 prop("C05", [sel("rawbounds"), sel("conv", fn=r"IntoIterator|From<toodee"), sel("shape", rules=["R-HIDE", "R-LEAK", "R-LEAK-DRAIN", "R-DRAINSTEP", "R-DRAINORDER", "R-STALE", "R-RESTORE"]), sel("dup"), sel("zstptr"), sel("guard", fn=r"(::view$|::view_mut$|from_toodee|calculate_view_dimensions)"), sel("cursor", fn=r"^Col( |:|$)|<rule>"), sel("drainlit")],
@@ -257,18 +257,18 @@ prop("C11", [sel("shape", rules=["R-UNWIND", "R-HIDE", "R-RESTORE", "R-DRAINORDE
 prop("C12", [sel("witness", fn=r"^(W6|W7|W9|<witness>)", keep_rule_floor=False), sel("shape", rules=["R-LEAK", "R-LEAK-DRAIN"]), sel("zero", fn=r"^TooDee::remove"), sel("encaps", fn=r"^(DrainCol|<api>)"), sel("shape", rules=["R-HIDE", "R-DRAINSTEP", "R-RESTORE"], fn=r"(DrainCol|DropGuard|remove_)")],
      "Leak safety: (R-LEAK) a function returning a crate type whose destructor writes the shape returns with a consistent triple as if the destructor never ran; (R-LEAK-DRAIN) a returned std Drain over the buffer is a tail drain, so that Vec's leaked length equals the already-updated dimensions' product; (R-ZERO) the dimensions written eagerly obey the zero rule.  Iterators/views perform no shape write and have no shape-writing drop glue (they are not shape writers in the enumeration).",
      declined=["range.start == new_rows*new_cols for the tail drain (arithmetic, DESIGN 2.4)"])
-prop("C13", [sel("fillshape"), sel("nth"), sel("layout", fn=r"(swap|<rule>)"), sel("guard", fn=SWAPS), sel("units", fn=SWAPS), sel("dup", fn=r"(swap|fill|row_pair)")] + L_ROWCUR("RowsMut") + L_COLCUR("ColMut")[:4] + L_VIEWS(True) + [sel("layout", fn=r"(get_unchecked|<rule>)"), sel("zero", fn=CTORS), sel_dyn(A_SWAPS)],
+prop("C13", L_INV() + [sel("fillshape"), sel("nth"), sel("layout", fn=r"(swap|<rule>)"), sel("guard", fn=SWAPS), sel("units", fn=SWAPS), sel("dup", fn=r"(swap|fill|row_pair)")] + L_ROWCUR("RowsMut") + L_COLCUR("ColMut")[:4] + L_VIEWS(True) + [sel("layout", fn=r"(get_unchecked|<rule>)"), sel("zero", fn=CTORS), sel_dyn(A_SWAPS)],
      "Swap/fill primitives, structural clauses: (R-GUARD) swap, swap_rows, swap_cols, row_pair_mut on the owned array, the mutable view and the provided defaults compare each index strictly with the right dimension (directly, via the ordered-swap idiom, or via nth(..).unwrap()); (R-UNITS) no row/column mix-up; (R-DUP) only swap primitives move elements. (R-LAYOUT) TooDee::swap addresses row*C+col for both cells (L-POS), both swap_rows overrides address [r1*S,+C) and [r2*S,+C) as polynomial identities after composing the nested slices (stride-aware for the view); (R-NTH) the provided swap_rows / row_pair_mut / swap that third-party implementors inherit address, through rows_mut().nth(a) followed by nth(k) (rows a and a+1+k), exactly the rows / cells named by their arguments on every path, row_pair_mut returning them in argument order; (R-GUARD) no normal return bypasses a bounds check; the layers the provided methods run on - RowsMut (R-CURSOR, R-OVF: nth(huge) must yield None so that unwrap panics), ColMut, rows_mut()/col_mut()/get_unchecked* of the three receivers (R-LAYOUT) and the mutable window constructors ('identically for owned arrays and views').")
-prop("C14", [sel("copyshape"), sel("nonzero", fn=r"(copy_|clone_from|CopyOps|<rule>)"), sel("guard", fn=r"copy_within"), sel("units", fn=r"(copy_|clone_from)"), sel("dup", fn=r"(copy_|clone_from|CopyOps)")] + L_ROWCUR() + L_VIEWS() + [sel("zero", fn=CTORS), sel_dyn(A_COPY)],
+prop("C14", L_INV() + [sel("copyshape"), sel("nonzero", fn=r"(copy_|clone_from|CopyOps|<rule>)"), sel("guard", fn=r"copy_within"), sel("units", fn=r"(copy_|clone_from)"), sel("dup", fn=r"(copy_|clone_from|CopyOps)")] + L_ROWCUR() + L_VIEWS() + [sel("zero", fn=CTORS), sel_dyn(A_COPY)],
      "clauses only: guard/unit clauses of C14 - (R-COPYSHAPE) each of the eight copy functions compares the sizes with a diverging guard that dominates every write (or is one std slice copy of the whole buffer, which checks lengths) and transfers rows destination <- source from zip(rows_mut(), source rows); (R-GUARD) the six coordinates of copy_within are bounded against the dimension of their unit (directly or through the ordered source rectangle); (R-ARITH) no `+` on a caller coordinate before its guard; (R-UNITS) row offsets index rows, column offsets slice rows; (R-DUP) bitwise copies only under T: Copy via slice methods; (R-NONZERO) no chunks*/division sees a possibly-zero column count (empty destinations are valid shapes); the rows transferred come from Rows / RowsMut started by rows()/rows_mut() of source and destination (R-CURSOR, R-LAYOUT), over windows built by the view constructors.",
      declined=["row-major equality of the result as values; for overlapping rectangles the row ORDER is decided (overlap-order clause), the absence of any other read-after-write hazard inside one row copy is std's slice::copy_within / copy_from_slice contract"])
-prop("C15", [sel("flipshape"), sel("lockstep"), sel("noshift"), sel("layout", fn=r"get_unchecked_row_mut|<rule>"), sel("guard", fn=r"translate"), sel("units", fn=r"(translate|flip)"), sel("dup", fn=r"(Translate|translate|flip)")] + L_ROWCUR("RowsMut") + L_VIEWS(True) + [sel("zero", fn=CTORS), sel_dyn(A_TRANS)],
+prop("C15", L_INV() + [sel("flipshape"), sel("lockstep"), sel("noshift"), sel("layout", fn=r"get_unchecked_row_mut|<rule>"), sel("guard", fn=r"translate"), sel("units", fn=r"(translate|flip)"), sel("dup", fn=r"(Translate|translate|flip)")] + L_ROWCUR("RowsMut") + L_VIEWS(True) + [sel("zero", fn=CTORS), sel_dyn(A_TRANS)],
      "clauses only: guard and permutation clauses of C15 - (R-FLIPSHAPE) flip_rows swaps next() with next_back() of one rows_mut() cursor, flip_cols reverses every row; mid <= (num_cols, num_rows) with the right units; translate.rs moves elements only with swap_with_slice / rotate_left / reverse on rows obtained from the trait (no element lost or duplicated); the unchecked row getters it relies on address row*stride .. +num_cols on every implementor (R-LAYOUT L-ROW); no cross-axis comparison of a mid-point with the other dimension (R-UNITS u1, also for equalities); (R-LOCKSTEP) in the cycle-leader loop of translate_with_wrap the row cursor and the running column offset are induction variables of one loop that are advanced on exactly the same iterations and re-initialised at the same loop depth (a necessary condition of 'row k of a cycle is rotated by k*col_mid'); the layers both algorithms run on: RowsMut and rows_mut() (R-CURSOR, R-LAYOUT) and the mutable window constructors ('on any array or view').",
      declined=["the position formula new[(c,r)] == old[((c+mc)%C,(r+mr)%R)] and index validity inside the cycle-leader loop (number theory, DESIGN 2.2): R-LOCKSTEP decides only that the two cursors move together, not that the walk visits every row once"])
-prop("C16", [sel("sortkey", fn=r"sort_.*row"), sel("deleg", fn=r"sort_.*row"), sel("sortshape", fn=r"sort_.*row"), sel("guard", fn=r"sort_.*row"), sel("units", fn=r"sort_.*row"), sel("dup", fn=r"sort_.*row")] + L_ROWCUR("RowsMut") + L_VIEWS(True) + [sel("layout", fn=r"(Index<usize>|IndexMut<usize>|<rule>)"), sel("zero", fn=CTORS), sel_dyn(r"sort_.*row")],
+prop("C16", L_INV() + [sel("sortkey", fn=r"sort_.*row"), sel("deleg", fn=r"sort_.*row"), sel("sortshape", fn=r"sort_.*row"), sel("guard", fn=r"sort_.*row"), sel("units", fn=r"sort_.*row"), sel("dup", fn=r"sort_.*row")] + L_ROWCUR("RowsMut") + L_VIEWS(True) + [sel("layout", fn=r"(Index<usize>|IndexMut<usize>|<rule>)"), sel("zero", fn=CTORS), sel_dyn(r"sort_.*row")],
      "clauses only: sort-by-row family - (R-DELEG) each wrapper reaches the core of its own axis and stability with its index forwarded; (R-SORTSHAPE) s1 side sort of matching stability, s3 the key line is self[row] (resp. self.col(col)) of the given index, s2 comparator/key argument order, s4 the swap trace is applied to every row, s5 user code only before the first write; (R-GUARD) row < num_rows; (R-DUP) only ptr::swap moves elements; the layers the family runs on: the key row self[row] (R-LAYOUT of Index<usize> on the three receivers), RowsMut/rows_mut() through which the trace is applied, and the mutable window constructors.",
      declined=["build_swap_trace turning the permutation into transpositions; sortedness/stability as observed (std's contract given s1-s2)"])
-prop("C17", [sel("layout", fn=r"swap_rows|<rule>"), sel("nth", fn=r"swap_rows"), sel("sortkey", fn=r"sort_.*col"), sel("deleg", fn=r"sort_.*col"), sel("sortshape", fn=r"sort_.*col"), sel("guard", fn=r"sort_.*col"), sel("units", fn=r"sort_.*col"), sel("dup", fn=r"sort_.*col")] + L_ROWCUR("RowsMut") + L_COLCUR("Col") + L_VIEWS(True) + [sel("zero", fn=CTORS), sel_dyn(r"sort_.*col")],
+prop("C17", L_INV() + [sel("layout", fn=r"swap_rows|<rule>"), sel("nth", fn=r"swap_rows"), sel("sortkey", fn=r"sort_.*col"), sel("deleg", fn=r"sort_.*col"), sel("sortshape", fn=r"sort_.*col"), sel("guard", fn=r"sort_.*col"), sel("units", fn=r"sort_.*col"), sel("dup", fn=r"sort_.*col")] + L_ROWCUR("RowsMut") + L_COLCUR("Col") + L_VIEWS(True) + [sel("zero", fn=CTORS), sel_dyn(r"sort_.*col")],
      "clauses only: sort-by-column family - as C16 with columns: wrappers reach the *_col cores (R-DELEG, R-UNITS u4), the trace is applied with swap_rows - whose three implementations move exactly the two named rows (R-LAYOUT L-SWAPROWS with the object's own stride, R-NTH for the default) - col < num_cols; the layers the family runs on: the key column self.col(col) (Col cursor and col() constructors, R-CURSOR/R-LAYOUT), RowsMut/rows_mut() under the default swap_rows, and the mutable window constructors.",
      declined=["as C16"])
 prop("C18", [sel("zero", fn=VIEWS), sel("serde")] + L_CELLS() + L_INV(),
@@ -297,3 +297,22 @@ PROPS["C20"]["explanation"] += " Hand-written Clone / PartialEq / Hash are decid
 for _pid in ("C06", "C11", "C01"):
     PROPS[_pid]["explanation"] += " R-ARITH on TooDee::reserve / reserve_exact: the requested capacity (an iterator's claimed length) enters no plain or wrapping sum, so Vec's capacity-overflow panic is reached before insert_* lower the length."
 PROPS["C14"]["explanation"] += " Overlap order: for every row_pair_mut(s, d) inside a counted loop the walk is classified ascending / descending from the coefficient of the loop item in s, and the branch facts dominating the computation of s must justify it (ascending: src.0.1 >= dest.1 or dest.1 >= src.1.1; descending: src.0.1 <= dest.1 or dest.1 + height <= src.0.1). copy_within placement identities: for every row_pair_mut(s, d) the distance d - s equals dest.1 - src.0.1, the per-row copy takes columns [src.0.0, src.1.0) to [dest.0, dest.0 + width), the same-row case is row.copy_within(src.0.0..src.1.0, dest.0) - as polynomial identities over the parameters; an endpoint compared strictly with its bound (an empty rectangle rejected) is reported as over-strict."
+
+# explanations: clauses added in round 8
+_SHADOW = " Inherent methods that hide a trait method of the same name (method-call syntax resolves to them, in the crate and in caller code) are analysed under the trait method's identity (facts.py: `T as Trait::m`), so every clause that applies to an override applies to them."
+for _pid in ("C01", "C03", "C04", "C08", "C09", "C13", "C14", "C15", "C16", "C17"):
+    PROPS[_pid]["explanation"] += _SHADOW
+for _pid in ("C13", "C14", "C15", "C16", "C17"):
+    PROPS[_pid]["explanation"] += " Premise layer: the owned array's shape invariant at every exit point (R-UNWIND, R-LEAK, R-LEAK-DRAIN, R-STALE, R-ZERO) - the in-place algorithms compute their unchecked offsets from the dimensions."
+PROPS["C04"]["explanation"] += " (R-ENCAPS) the raw span `v` of a Rows / RowsMut / Col / ColMut cursor - which includes the cells between the rows of a strided view - is used for more than its length only by the cursor's own impls; (R-FILL) an override of fill on the mutable view writes the whole backing span only under `stride == num_cols` or `data.len() == num_cols * num_rows`."
+PROPS["C13"]["explanation"] += " (R-FILL) an override of fill on the mutable view writes the whole backing span only under a test that establishes contiguity."
+for _pid in ("C06", "C11"):
+    PROPS[_pid]["explanation"] += " TooDee::reserve / reserve_exact hand the caller's count to Vec::reserve undiminished (Vec::reserve is relative to the length already)."
+for _pid in ("C07", "C12", "C01"):
+    PROPS[_pid]["explanation"] += " (R-ENCAPS) the column drain, which owns the removed cells, is not Clone / Copy."
+PROPS["C20"]["explanation"] += " A hand-written eq answers a literal `true` only on paths that examined all three fields of both operands (no address / single-field shortcut)."
+PROPS["C19"]["explanation"] += " (t1b) every slot of visit_map starts as None, so the missing-field test cannot be passed by a pre-filled slot."
+for _pid in ("C02", "C03"):
+    PROPS[_pid]["explanation"] += " (R-ARITH) no dimension or length is converted to an integer type narrower than usize on the way to an accessor (also through a helper's parameter)."
+PROPS["C16"]["explanation"] += " s1 applies to every override / hiding inherent method of a SortOps method as well."
+PROPS["C17"]["explanation"] += " s1 applies to every override / hiding inherent method of a SortOps method as well."
